@@ -83,3 +83,53 @@ Example C14_lbdy_cut_inside_second_step :
   /\ lb_mm_read (firstn 165 (lb_enc l)) 660 = Err
   /\ (exists v, lb_mm_read (firstn 235 (lb_enc l)) 940 = Ok v /\ lv_ntimes v = 1).
 Proof. vm_compute. repeat split; try reflexivity. eexists; split; reflexivity. Qed.
+
+(* ======================================================================================================
+   CAMx one3d family (one3d / humidity / vertical_diffusivity), Model/One3d.v
+   ====================================================================================================== *)
+From PNC Require Import Model.One3d Proofs.One3dProofs.
+
+Theorem C14_one3d_reader_local : forall rows cols ws size,
+  o_mm_read rows cols (firstn (Z.to_nat (size / 4)) ws) size = o_mm_read rows cols ws size.
+Proof. exact o_mm_read_local. Qed.
+Print Assumptions C14_one3d_reader_local.
+
+(* EVERY well-formed readable file and EVERY cut point: opening the first `size` bytes and reading the data either
+   raises, or the cut is exactly k >= 2 whole steps and exactly the first k steps are presented *)
+Theorem C14_one3d_every_prefix : forall c size, o_wf c = true -> o_readable c = true ->
+  0 <= size <= 4 * Z.of_nat (length (o_enc c)) ->
+  o_mm_read (o_ny c) (o_nx c) (firstn (Z.to_nat (size / 4)) (o_enc c)) size = Err \/
+  exists k, (2 <= k <= length (o_steps c))%nat /\ size = 4 * (Z.of_nat k * o_step_words c) /\
+            o_mm_read (o_ny c) (o_nx c) (firstn (Z.to_nat (size / 4)) (o_enc c)) size
+            = Ok (o_view_of (o_truncate_steps k c)).
+Proof. exact o_mm_read_prefix. Qed.
+Print Assumptions C14_one3d_every_prefix.
+
+(* the strongest true form: the set of accepted cuts and what is presented there, exactly. In particular a prefix of
+   ONE whole step is refused (the reader cannot infer the layer count), and so is every cut on a record boundary that
+   is not a whole number of steps (there the lazy reshape of the data raises). *)
+Theorem C14_one3d_accepts_iff : forall c size v, o_wf c = true -> o_readable c = true ->
+  0 <= size <= 4 * Z.of_nat (length (o_enc c)) ->
+  (o_mm_read (o_ny c) (o_nx c) (firstn (Z.to_nat (size / 4)) (o_enc c)) size = Ok v <->
+   exists k, (2 <= k <= length (o_steps c))%nat /\ size = 4 * (Z.of_nat k * o_step_words c) /\
+             v = o_view_of (o_truncate_steps k c)).
+Proof. exact o_mm_read_accepts_iff. Qed.
+Print Assumptions C14_one3d_accepts_iff.
+
+(* a single-step file is refused at every cut *)
+Theorem C14_one3d_single_step_never_opens : forall c s, o_wf c = true -> o_steps c = [s] ->
+  forall size, 0 <= size <= 4 * Z.of_nat (length (o_enc c)) ->
+  o_mm_read (o_ny c) (o_nx c) (firstn (Z.to_nat (size / 4)) (o_enc c)) size = Err.
+Proof. exact o_mm_read_single_step. Qed.
+Print Assumptions C14_one3d_single_step_never_opens.
+
+Example C14_one3d_cuts :
+  let c := {| o_nx := 2; o_ny := 1; o_nz := 2;
+              o_steps := [OStep 1120403456 4001 [[11; 12]; [13; 14]]; OStep 1128792064 4001 [[21; 22]; [23; 24]];
+                          OStep 1133903872 4001 [[31; 32]; [33; 34]]] |} in
+  o_wf c = true /\ o_readable c = true /\ o_step_words c = 12
+  /\ o_mm_read 1 2 (firstn 12 (o_enc c)) 48 = Err            (* one whole step *)
+  /\ o_mm_read 1 2 (firstn 30 (o_enc c)) 120 = Err           (* two steps and one record *)
+  /\ o_mm_read 1 2 (firstn 25 (o_enc c)) 100 = Err           (* inside a record *)
+  /\ (exists v, o_mm_read 1 2 (firstn 24 (o_enc c)) 96 = Ok v /\ ov_ntimes v = 2).
+Proof. vm_compute. repeat split; try reflexivity. eexists; split; reflexivity. Qed.
